@@ -308,6 +308,11 @@ class Executor:
         return self.getattr(base, e.attr, st, e)
 
     def getattr(self, base, attr, st, node=None):
+        if isinstance(base.ty, OptT) and base.ty.inner is STR:
+            # a method of an optional string: None has no such attribute
+            self.safety("not None before ." + attr, st, base.term != NONE, node, "AttributeError")
+            self.model.need_box(STR)
+            base = V(unbox(base.term, STR), STR)
         v = self.model.getattr(self, base, attr, st, node)
         if v is None:
             if self.lenient:
@@ -423,6 +428,12 @@ class Executor:
             if isinstance(c.py, tuple) and c.py and c.py[0] == "symset":
                 return z3.Or([self.equal(item, x) for x in c.py[1]])
             if isinstance(c.py, (frozenset, set, tuple, list, dict)):
+                if isinstance(item.ty, OptT) and item.ty.inner is STR:
+                    self.model.need_box(STR)
+                    inner = V(unbox(item.term, STR), STR)
+                    strs = sorted(x for x in c.py if isinstance(x, str))
+                    hit = z3.Or([inner.term == z3.StringVal(x) for x in strs] or [z3.BoolVal(False)])
+                    return z3.And(item.term != NONE, hit) if None not in c.py else z3.Or(item.term == NONE, hit)
                 if item.ty is STR:
                     strs = sorted(x for x in c.py if isinstance(x, str))
                     return z3.Or([item.term == z3.StringVal(x) for x in strs] or [z3.BoolVal(False)])
@@ -448,8 +459,17 @@ class Executor:
             return fresh("havoc_in", z3.BoolSort())
         raise Unsupported(f"`in` on {c!r}")
 
+    def _unopt_str(self, x, other, st, node):
+        """Opt[Str] used as an operand next to a string: None would raise TypeError; otherwise the string itself."""
+        if isinstance(x.ty, OptT) and x.ty.inner is STR and (other.ty is STR or (isinstance(other.ty, OptT) and other.ty.inner is STR)):
+            self.safety("operand is not None", st, x.term != NONE, node, "TypeError")
+            self.model.need_box(STR)
+            return V(unbox(x.term, STR), STR)
+        return x
+
     def ev_BinOp(self, e, st):
         a, b = self.ev(e.left, st), self.ev(e.right, st)
+        a, b = self._unopt_str(a, b, st, e), self._unopt_str(b, a, st, e)
         r = self.model.binop(self, e.op, a, b, st)
         if r is not None:
             return r
